@@ -67,7 +67,6 @@ type Ptr struct {
 
 type backing struct{ cells []*Obj }
 
-
 type SliceV struct {
 	B           *backing
 	Lo, Hi, Cap int
@@ -160,10 +159,10 @@ func (ip *Interp) Run(fn *ssa.Function, args []AV, free []AV) (res AV, err error
 	return ip.call(fn, args, free), nil
 }
 
-func kBool(b bool) AV   { return constant.MakeBool(b) }
-func kInt(i int64) AV   { return constant.MakeInt64(i) }
-func kStr(s string) AV  { return constant.MakeString(s) }
-func isK(v AV) bool     { _, ok := v.(constant.Value); return ok }
+func kBool(b bool) AV  { return constant.MakeBool(b) }
+func kInt(i int64) AV  { return constant.MakeInt64(i) }
+func kStr(s string) AV { return constant.MakeString(s) }
+func isK(v AV) bool    { _, ok := v.(constant.Value); return ok }
 func avBool(v AV) bool {
 	k, ok := v.(constant.Value)
 	if !ok || k.Kind() != constant.Bool {
